@@ -18,7 +18,16 @@
    Encodings:  tree  (0 name value) token | (1 name) empty | (2 name (children)) inner
                      | (3 name (children)) sequence leaf
                value (0) None | (1 str) | (2 (items)) list | (3 ((k v)...)) dict
-                     | (4 name leaf value) TElement *)
+                     | (4 name leaf value) TElement
+   CHist g keep start raws start2 raws2
+                   one grammar, one parser object (constructor start symbol [start]) on which
+                   several calls were made one after another; [raws] = for each call with
+                   cleanup the raw tree of that call (parse(text, do_cleanup=False,
+                   start_symbol_name=..) of a parser object made for that call alone: the
+                   root is the call's start symbol).  [raws2]: the calls made on a second
+                   parser object of the same grammar with constructor start symbol [start2].
+                   observation: (1 code) | (0 PRODS CALL ... CALL) with one
+                   CALL = (CLEAN VALID) per tree of [raws], then of [raws2] *)
 From Coq Require Import ZArith List Bool.
 From AK Require Export Common.Sx Common.Err LLP.Base gen.C05_Consts C05.Model.
 Import ListNotations.
@@ -26,7 +35,8 @@ Open Scope Z_scope.
 
 Inductive case :=
 | CProds (n : sym) (p : pspec)
-| CParse (g : gspec) (keep : list sym) (start : sym) (raw : option rt) (raw2 : option rt).
+| CParse (g : gspec) (keep : list sym) (start : sym) (raw : option rt) (raw2 : option rt)
+| CHist (g : gspec) (keep : list sym) (start : sym) (raws : list rt) (start2 : sym) (raws2 : list rt).
 
 Fixpoint sx_rt (t : rt) : sx :=
   match t with
@@ -90,6 +100,15 @@ Definition run_full (c : case) : sx :=
               sx_option (fun t => sx_res sx_rt (flatten (seq_syms gi) t)) raw2;
               sx_bool (match raw with Some t => templates_valid false gi t | None => true end &&
                        match raw2 with Some t => templates_valid true gi t | None => true end)]
+      end
+  | CHist g keep start raws start2 raws2 =>
+      match init_grammar g with
+      | Err e => SL [SZ 1; SZ (err_code e)]
+      | Ok gi =>
+          let calls := fun s rs =>
+            map (fun tr => SL [sx_res sx_te (snd tr); sx_bool (templates_valid false gi (fst tr))])
+                (combine rs (run_calls (grammar_env gi keep s seq_cleaned) rs)) in
+          SL (SZ 0 :: sx_prods (template_prods gi) :: calls start raws ++ calls start2 raws2)
       end
   end.
 
